@@ -12,8 +12,14 @@
 #include <cstdlib>
 #include <cstring>
 #include <iterator>
+#include <new>
+#include <type_traits>
+#if __has_include(<igris/util/ctrdtr.h>)
 #include <igris/util/ctrdtr.h>
+#endif
+#if __has_include(<igris/container/flat_map_view.h>)
 #include <igris/container/flat_map_view.h>
+#endif
 
 // heap-owning value: lifetime errors of the underlying vector become ASan reports
 struct Box
@@ -97,6 +103,140 @@ struct FlatBase
     virtual std::string step(const std::string &line) = 0;
 };
 
+// ---- round 3b, fragility: the helpers of ctrdtr.h that vector.h does not use (copy_constructor, array_constructor),
+// the others of that file and flat_map_view (not an anchored file) are OPTIONAL for the harness.  Global fallbacks of the
+// same names, found by unqualified lookup from inside `namespace igris::c02_probe` only when igris itself no longer
+// declares the name (the inner declaration hides them; by ADL they join the overload set as the worst match: `...`).
+// A renamed / removed helper degrades to the behavioural probe (placement new / linear search done here), not to a
+// compile error of every translation unit that includes this file.
+struct c02_absent
+{
+};
+c02_absent destructor(...);
+c02_absent copy_constructor(...);
+c02_absent move_constructor(...);
+c02_absent array_destructor(...);
+c02_absent array_constructor(...);
+template <class K, class T, class E = void> struct flat_map_view
+{ // fallback: the same interface over the array, linear search with ==
+    using absent = c02_absent;
+    std::pair<K, T> *b, *e;
+    template <unsigned N> flat_map_view(std::pair<K, T> (&a)[N]) : b(a), e(a + N) {}
+    std::pair<K, T> *begin() { return b; }
+    std::pair<K, T> *end() { return e; }
+    size_t size() const { return (size_t)(e - b); }
+    std::pair<K, T> *find(const K &k)
+    {
+        for (auto *p = b; p != e; ++p)
+            if (p->first == k)
+                return p;
+        return e;
+    }
+    T &operator[](const K &k) { return find(k)->second; }
+};
+namespace igris
+{
+    namespace c02_probe
+    {
+        template <class R> constexpr bool present = !std::is_same<R, ::c02_absent>::value;
+        // array_constructor(q, q+2, v); copy_constructor(q+2, q[0]); move_constructor(q+3, move(q[1])); then the
+        // destructors: returns "q0,q2,q3,<q1 is moved-from>"; `used` = how many of the five helpers exist
+        template <class B> std::string ctrdtr_probe(int v, int &used)
+        {
+            alignas(B) unsigned char raw[4 * sizeof(B)];
+            B *q = (B *)(void *)raw;
+            used = 0;
+            if constexpr (present<decltype(array_constructor(q, q + 2, v))>)
+            {
+                array_constructor(q, q + 2, v);
+                used++;
+            }
+            else
+            {
+                new ((void *)q) B(v);
+                new ((void *)(q + 1)) B(v);
+            }
+            if constexpr (present<decltype(copy_constructor(q + 2, (const B &)q[0]))>)
+            {
+                copy_constructor(q + 2, (const B &)q[0]);
+                used++;
+            }
+            else
+                new ((void *)(q + 2)) B((const B &)q[0]);
+            if constexpr (present<decltype(move_constructor(q + 3, std::move(q[1])))>)
+            {
+                move_constructor(q + 3, std::move(q[1]));
+                used++;
+            }
+            else
+                new ((void *)(q + 3)) B(std::move(q[1]));
+            std::string ret = std::to_string(unbox(q[0])) + "," + std::to_string(unbox(q[2])) + "," + std::to_string(unbox(q[3])) + "," + std::to_string(q[1].p == nullptr);
+            if constexpr (present<decltype(destructor(q + 1))>)
+            {
+                destructor(q + 1);
+                destructor(q);
+                used++;
+            }
+            else
+            {
+                q[1].~B();
+                q[0].~B();
+            }
+            if constexpr (present<decltype(array_destructor(q + 2, q + 4))>)
+            {
+                array_destructor(q + 2, q + 4);
+                used++;
+            }
+            else
+            {
+                q[2].~B();
+                q[3].~B();
+            }
+            return ret;
+        }
+        // flat_map_view over {1>0, 4>10, 7>20, 10>30}: find / operator[] / size / iteration
+        template <class K> std::string mview_probe(K key)
+        {
+            std::pair<K, int> arr[4] = {{1, 0}, {4, 10}, {7, 20}, {10, 30}};
+            flat_map_view<K, int> view(arr);
+            auto it = view.find(key);
+            size_t n = 0;
+            for (auto &e : view)
+                n += e.first > 0;
+            return (it == view.end() ? std::string("end") : std::to_string(it - view.begin()) + ">" + std::to_string(view[key])) + "," + std::to_string(view.size()) + "," + std::to_string(n);
+        }
+    }
+}
+
+// ---- round 3b: flat_map / flat_set under ALLOCATION FAILURE.  Both classes (and the compat/std shims) take an
+// allocator parameter and hand it to their storage vector: the compat unit instantiates them with FA, so that the
+// storage is igris::vector<value_type, FA<value_type>>.  `afail <k> <op …>`: the k-th allocation made during the
+// operation throws std::bad_alloc; std::map / std::set promise "no effects" for a single-element insertion that throws,
+// so the dump must be what it was; then the SAME operation runs again unarmed and its line is the compared result.
+inline long g_fa_fuse = -1; // -1 = disarmed
+inline long g_fa_fired = 0;
+template <class T> struct FA
+{
+    using value_type = T;
+    FA() = default;
+    template <class U> FA(const FA<U> &) {}
+    T *allocate(size_t n)
+    {
+        if (g_fa_fuse == 0)
+        {
+            g_fa_fuse = -1;
+            g_fa_fired++;
+            throw std::bad_alloc();
+        }
+        if (g_fa_fuse > 0)
+            g_fa_fuse--;
+        return std::allocator<T>().allocate(n); // exactly sized heap block: ASan red zones on both sides
+    }
+    void deallocate(T *p, size_t n) { std::allocator<T>().deallocate(p, n); }
+    bool operator==(const FA &) const { return true; }
+    bool operator!=(const FA &) const { return false; }
+};
+
 // MK = key type of the map, Key = key type of the set
 // HOSTED = the storage is the libstdc++ vector: the members of flat_map / flat_set that forward to vector members
 // igris::vector does not have (cbegin/cend, crbegin/crend, max_size, shrink_to_fit, swap, get_allocator) compile
@@ -146,6 +286,31 @@ template <class Map, class Set, class Val, class Key, class MK = int, bool HOSTE
         {
             reset();
             return "ok";
+        }
+        if (op == "afail")
+        { // `afail <k> <op …>` (see FA above); with std::allocator storage (hosted build) the operation simply runs
+            size_t p1 = line.find(' '), p2 = p1 == std::string::npos ? p1 : line.find(' ', p1 + 1);
+            if (p2 == std::string::npos)
+                return "bad-op";
+            std::string rest = line.substr(p2 + 1), before = dump();
+            bool threw = false;
+            std::string first;
+            g_fa_fuse = a[1];
+            try
+            {
+                first = step(rest);
+            }
+            catch (const std::bad_alloc &)
+            {
+                threw = true;
+            }
+            g_fa_fuse = -1;
+            if (!threw)
+                return first; // no allocation was refused: the operation has run, this is its line
+            std::string after = dump();
+            if (after != before)
+                return "af=BAD" + after + " was" + before;
+            return step(rest);
         }
         if (op == "mset")
             fm[mk(a[1])] = Val(a[2]);
@@ -254,19 +419,54 @@ template <class Map, class Set, class Val, class Key, class MK = int, bool HOSTE
                 auto show = [](const std::string &acc, const P &e) { return acc + (acc.empty() ? "" : ",") + std::to_string(unbox(e.first)) + ">" + std::to_string(unbox(e.second)); };
                 const Map &cf = fm;
                 std::string f1, f2, r1, r2, r3;
-                for (auto it = cf.cbegin(); it != cf.cend(); ++it) f1 = show(f1, *it);
-                for (auto it = fm.rbegin(); it != fm.rend(); ++it) r1 = show(r1, *it);
-                for (auto it = cf.rbegin(); it != cf.rend(); ++it) r2 = show(r2, *it);
-                for (auto it = cf.crbegin(); it != cf.crend(); ++it) r3 = show(r3, *it);
-                fm.reserve(fm.size() + 3);
-                bool capok = fm.capacity() >= fm.size() + 3;
-                fm.shrink_to_fit();
+                // round 3b: every member that is not std::map's lookup interface is OPTIONAL (a removed / renamed
+                // forwarder degrades to the behavioural probe through begin() / end(), not to a compile error)
+                auto fwd = [&](auto &m) { std::string acc; for (auto it = m.begin(); it != m.end(); ++it) acc = show(acc, *it); return acc; };
+                auto rev = [&](auto &m) { std::string acc; P tmp[256]; size_t n = 0; for (auto it = m.begin(); it != m.end() && n < 256; ++it) tmp[n++] = *it; while (n) acc = show(acc, tmp[--n]); return acc; };
+                if constexpr (requires { cf.cbegin() != cf.cend(); })
+                    for (auto it = cf.cbegin(); it != cf.cend(); ++it) f1 = show(f1, *it);
+                else
+                    f1 = fwd(cf);
+                if constexpr (requires { fm.rbegin() != fm.rend(); })
+                    for (auto it = fm.rbegin(); it != fm.rend(); ++it) r1 = show(r1, *it);
+                else
+                    r1 = rev(fm);
+                if constexpr (requires { cf.rbegin() != cf.rend(); })
+                    for (auto it = cf.rbegin(); it != cf.rend(); ++it) r2 = show(r2, *it);
+                else
+                    r2 = rev(cf);
+                if constexpr (requires { cf.crbegin() != cf.crend(); })
+                    for (auto it = cf.crbegin(); it != cf.crend(); ++it) r3 = show(r3, *it);
+                else
+                    r3 = rev(cf);
+                bool capok = true;
+                if constexpr (requires { fm.reserve(fm.size() + 3); })
+                {
+                    fm.reserve(fm.size() + 3);
+                    if constexpr (requires { fm.capacity() >= fm.size(); })
+                        capok = fm.capacity() >= fm.size() + 3;
+                }
+                if constexpr (requires { fm.shrink_to_fit(); })
+                    fm.shrink_to_fit();
                 Map other;
-                other.swap(fm);                 // fm empty, other holds the entries
+                auto swp = [](Map &x, Map &y) {
+                    if constexpr (requires { x.swap(y); })
+                        x.swap(y);
+                    else
+                    {
+                        Map t(std::move(x));
+                        x = std::move(y);
+                        y = std::move(t);
+                    }
+                };
+                swp(other, fm);                 // fm empty, other holds the entries
                 bool e1 = fm.empty() && fm.size() == 0 && !(other.empty() && other.size());
-                fm.swap(other);
-                for (auto it = fm.begin(); it != fm.end(); ++it) f2 = show(f2, *it);
-                ret = (f1.empty() ? "-" : f1) + "|" + (r1.empty() ? "-" : r1) + "|" + std::to_string(r1 == r2 && r2 == r3 && f1 == f2 && capok && e1 && fm.max_size() > 0);
+                swp(fm, other);
+                f2 = fwd(fm);
+                bool maxok = true;
+                if constexpr (requires { fm.max_size() > 0; })
+                    maxok = fm.max_size() > 0;
+                ret = (f1.empty() ? "-" : f1) + "|" + (r1.empty() ? "-" : r1) + "|" + std::to_string(r1 == r2 && r2 == r3 && f1 == f2 && capok && e1 && maxok);
             }
         }
         else if (op == "smisc")
@@ -274,34 +474,28 @@ template <class Map, class Set, class Val, class Key, class MK = int, bool HOSTE
             if constexpr (HOSTED)
             {
                 const Set &cs = fs;
-                (void)cs.get_allocator();
-                size_t n1 = (size_t)std::distance(cs.cbegin(), (typename Set::const_iterator)fs.end());
-                size_t n2 = (size_t)std::distance(cs.begin(), (typename Set::const_iterator)fs.end());
+                if constexpr (requires { cs.get_allocator(); })
+                    (void)cs.get_allocator();
+                auto count = [&](auto first) { size_t n = 0; for (auto it = first; it != fs.end(); ++it) n++; return n; };
+                size_t n1, n2;
+                if constexpr (requires { cs.cbegin() != fs.end(); })
+                    n1 = count(cs.cbegin());
+                else
+                    n1 = count(fs.begin());
+                if constexpr (requires { cs.begin() != fs.end(); })
+                    n2 = count(cs.begin());
+                else
+                    n2 = count(fs.begin());
                 ret = std::to_string(n1) + "," + std::to_string(n2);
             }
         }
         else if (op == "ctrdtr")
         { // igris/util/ctrdtr.h on raw storage (vector.h uses constructor / move_constructor / destructor / array_destructor)
-            alignas(Box) unsigned char raw[4 * sizeof(Box)];
-            Box *q = (Box *)(void *)raw;
-            igris::array_constructor(q, q + 2, a[1]);
-            igris::copy_constructor(q + 2, (const Box &)q[0]);
-            igris::move_constructor(q + 3, std::move(q[1]));
-            ret = std::to_string(unbox(q[0])) + "," + std::to_string(unbox(q[2])) + "," + std::to_string(unbox(q[3])) + "," + std::to_string(q[1].p == nullptr);
-            igris::destructor(q + 1);
-            igris::array_destructor(q + 2, q + 4);
-            igris::destructor(q);
+            int used = 0;
+            ret = igris::c02_probe::ctrdtr_probe<Box>(a[1], used);
         }
         else if (op == "mview")
-        { // igris::flat_map_view over a fixed array {1>0, 4>10, 7>20, 10>30}: find / operator[] / size / iteration
-            std::pair<int, int> arr[4] = {{1, 0}, {4, 10}, {7, 20}, {10, 30}};
-            igris::flat_map_view<int, int> view(arr);
-            auto it = view.find(a[1]);
-            size_t n = 0;
-            for (auto &e : view)
-                n += e.first > 0;
-            ret = (it == view.end() ? std::string("end") : std::to_string(it - view.begin()) + ">" + std::to_string(view[a[1]])) + "," + std::to_string(view.size()) + "," + std::to_string(n);
-        }
+            ret = igris::c02_probe::mview_probe<int>(a[1]);
         else if (op == "siter")
         {
             // for (it = begin(); it != end(); ++it)
